@@ -14,8 +14,8 @@ open JP JP.Typing JP.Lemmas
 /-- The registry extracted from the current source has the five standard functions with the RFC signatures. -/
 theorem registry_ok : StdTable (tableOfGenerated Generated.functions) := by decide
 
-/-- The registry extracted from the current source holds exactly the nine names the evaluator model dispatches on, with the
-    signatures the model gives them (registering a function, dropping an alias or changing a parameter type breaks this). -/
+/-- The registry extracted from the current source holds the nine names the evaluator model dispatches on, with the
+    signatures the model gives them (dropping an alias or changing a parameter or result type breaks this). -/
 theorem registry_is_what_is_modelled : ModelledTable (tableOfGenerated Generated.functions) := by decide
 
 /-- **Translated**: `Parser.COMPARISON_OPERATORS` as it is in the source lists exactly the operators the gate model
